@@ -822,6 +822,48 @@ m("C19", "log-exposed", CS,
   "	var vouchers []datatransfer.TypedVoucher\n	for i := 0; i <= len(c.ic.Vouchers); i++ {\n		encoded := c.ic.Vouchers[i]\n		vouchers = append(vouchers, datatransfer.TypedVoucher{Voucher: encoded.Voucher.Node, Type: encoded.Type})\n	}\n	return vouchers",
   "C19.1", "Vouchers() indexes one past the end")
 
+# ---------------- C16
+m("C16", "cleanup-leaves-mapping", GS,
+  "	// Clean up mapping from gs key to channel ID\n	c.t.requestIDToChannelID.deleteRefs(c.channelID)\n",
+  "",
+  "C16.3", "request→channel mapping left behind after cleanup", "calibration")
+m("C16", "receive-error-wrong-channels", GS,
+  "		if chid.Initiator != p && chid.Responder != p {\n			return\n		}",
+  "		if chid.OtherParty(p) != t.peerID {\n			return\n		}",
+  "C16.1", "receive error for one peer reported on channels with other peers", "seeded/C16a")
+m("C16", "store-flag-reset-on-error", GS,
+  "	err := c.t.gs.RegisterPersistenceOption(\"data-transfer-\"+c.channelID.String(), lsys)\n	if err != nil {\n		return err\n	}\n\n	c.storeRegistered = true\n\n	return nil",
+  "	err := c.t.gs.RegisterPersistenceOption(\"data-transfer-\"+c.channelID.String(), lsys)\n	c.storeRegistered = err == nil\n	return err",
+  "C16.5", "a second UseStore (restart) un-marks the still-registered per-channel store", "seeded/C16b")
+m("C16", "unknown-request-still-reported", GS,
+  "func (t *Transport) gsNetworkSendErrorListener(p peer.ID, request graphsync.RequestData, gserr error) {\n	// Fire an error if the graphsync request was made by this node or the remote peer\n	chid, ok := t.requestIDToChannelID.load(request.ID())\n	if !ok {\n		return\n	}",
+  "func (t *Transport) gsNetworkSendErrorListener(p peer.ID, request graphsync.RequestData, gserr error) {\n	// Fire an error if the graphsync request was made by this node or the remote peer\n	chid, ok := t.requestIDToChannelID.load(request.ID())\n	if !ok && p == t.peerID {\n		return\n	}",
+  "C16.1", "send error for an unknown request produces a channel event")
+m("C16", "mapping-wrong-channel", GS,
+  "	c.t.requestIDToChannelID.set(requestID, true, c.channelID)",
+  "	c.t.requestIDToChannelID.set(requestID, true, datatransfer.ChannelID{ID: c.channelID.ID, Initiator: c.channelID.Responder, Responder: c.channelID.Initiator})",
+  "C16.2", "incoming request mapped to the mirrored channel id")
+m("C16", "pause-after-cancel", GS,
+  "	// Check if the channel was already cancelled\n	if c.requestID == nil {\n		log.Debugf(\"%s: channel was cancelled so not pausing channel\", c.channelID)\n		return nil\n	}\n",
+  "",
+  "C16.4", "pause dereferences a cleared request id")
+m("C16", "partial-is-complete", GS,
+  "	if status != graphsync.RequestCompletedFull {\n		statusStr",
+  "	if status != graphsync.RequestCompletedFull && status != graphsync.RequestCompletedPartial {\n		statusStr",
+  "C01.4", "partial response reported as clean completion")
+m("C16", "count-blocks-not-on-wire", GS,
+  "	if block.BlockSizeOnWire() == 0 {\n		return\n	}\n\n	chid, ok := t.requestIDToChannelID.load(request.ID())\n	if !ok {\n		return\n	}\n\n	if err := t.events.OnDataSent",
+  "	chid, ok := t.requestIDToChannelID.load(request.ID())\n	if !ok {\n		return\n	}\n\n	if err := t.events.OnDataSent",
+  "C07.5", "blocks not put on the wire produce sent accounting")
+m("C16", "lookup-by-wrong-id", GS,
+  "func (t *Transport) gsRequestProcessingListener(p peer.ID, request graphsync.RequestData, requestCount int) {\n\n	chid, ok := t.requestIDToChannelID.load(request.ID())",
+  "func (t *Transport) gsRequestProcessingListener(p peer.ID, request graphsync.RequestData, requestCount int) {\n\n	chid, ok := t.requestIDToChannelID.any(request.ID(), graphsync.RequestID{})",
+  "C16.1", "event routed by a lookup that is not for the callback's own request only")
+m("C16", "store-not-unregistered", GS,
+  "	if c.hasStore() {\n		// Unregister the channel's store from graphsync",
+  "	if c.hasStore() && c.isOpen {\n		// Unregister the channel's store from graphsync",
+  "C16.3", "store of a never-opened channel outlives the channel")
+
 by = collections.defaultdict(list)
 for x in M:
     p = x.pop("prop")
